@@ -16,7 +16,7 @@ def series_of(sym: int) -> np.ndarray:
     return np.array([float(sym), float(sym) + 10.0, float(sym) + 20.0])
 
 
-def table_case(D, E, V, w, f, sim, real, ktab, rng, typed=None) -> dict:  # noqa: N803
+def table_case(D, E, V, w, f, sim, real, ktab, rng, typed=None, wscale=None) -> dict:  # noqa: N803
     """one compute_loss call of a BaseLoss subclass whose single-coordinate loss is the table ktab"""
     from black_it.loss_functions.base import BaseLoss
 
@@ -43,7 +43,10 @@ def table_case(D, E, V, w, f, sim, real, ktab, rng, typed=None) -> dict:  # noqa
         return lambda s: series_of(tab[int(s[0])])
 
     filters = [mk_filter(t) for t in f]
-    weights = None if w is None else np.array(w, dtype=float)
+    # explicit weights are also given on a tiny scale (an exact power of two: the weighted sum stays exact)
+    if wscale is None:
+        wscale = 2.0 ** -rng.choice([30, 40]) if (w is not None and rng.random() < 0.25) else 1.0
+    weights = None if w is None else np.array(w, dtype=float) * wscale
     loss = TableLoss(coordinate_weights=weights, coordinate_filters=filters if any(t is not None for t in f) or rng.random() < 0.5 else None)
     sim_arr = np.stack([np.stack([series_of(sim[m][i]) for i in range(D)], axis=1) for m in range(E)])   # (E, N, D)
     real_arr = np.stack([series_of(real[i]) for i in range(D)], axis=1)                                  # (N, D)
@@ -72,12 +75,12 @@ def table_case(D, E, V, w, f, sim, real, ktab, rng, typed=None) -> dict:  # noqa
     else:
         reused_ok = True
     wi = [1] * D if w is None else list(w)
-    scaled = float(val) * (D if w is None else 1)
+    scaled = float(val) / wscale * (D if w is None else 1)
     li = int(round(scaled))
     return {"e": "table", "D": D, "E": E, "w": wi, "f": ftab, "sim": [list(s) for s in sim], "real": list(real), "ktab": ktab,
             "loss": li if abs(scaled - li) < 1e-9 else -999999, "calls": calls,
             "inputsame": bool(np.array_equal(ks, sim_arr) and np.array_equal(kr, real_arr)),
-            "statesame": st0 == ckpt.h(ckpt.deep(loss.__dict__)), "wdefault": w is None, "reusedok": reused_ok, "typed": typed}
+            "statesame": st0 == ckpt.h(ckpt.deep(loss.__dict__)), "wdefault": w is None, "reusedok": reused_ok, "typed": typed, "wscale": wscale}
 
 
 def table_traces(tier: str, rng: random.Random) -> list[list[dict]]:
@@ -289,12 +292,12 @@ def replay(rep: dict) -> int:
         e = t[0]
         V = max(max(r[:-1]) for r in e["ktab"]) + 1  # noqa: N806
         f = [None if x == list(range(V)) else x for x in e["f"]]
-        new = [table_case(e["D"], e["E"], V, None if e.get("wdefault") else e["w"], f, e["sim"], e["real"], e["ktab"], rng, typed=e.get("typed", False))]
+        new = [table_case(e["D"], e["E"], V, None if e.get("wdefault") else e["w"], f, e["sim"], e["real"], e["ktab"], rng, typed=e.get("typed", False), wscale=e.get("wscale", 1.0))]
     elif t and t[0]["e"] == "badlen":
         new = badlen_trace(rng)
     else:
         new = builtin_trace(rng)
-    res = tlc.validate("LossInterfaceTrace", "LossInterfaceTrace.cfg", {"traces": [[{k: v for k, v in e.items() if k not in ("name", "wdefault", "typed")} for e in new]]})
+    res = tlc.validate("LossInterfaceTrace", "LossInterfaceTrace.cfg", {"traces": [[{k: v for k, v in e.items() if k not in ("name", "wdefault", "typed", "wscale")} for e in new]]})
     chk.add_validation(res)
     for _tid, why in res["rejected"].items():
         chk.violation("replay", why["why"], {"trace": new})
